@@ -437,6 +437,29 @@ Theorem C12_suffices_cmux_assign_neg : forall (fam n : Z) (res a s : infos),
 Proof. exact main_cmux_assign_neg. Qed.
 Print Assumptions C12_suffices_cmux_assign_neg.
 
+(* poulpy-bin-fhe two-word BDD operations (FheUint add / sub / shifts / comparisons / and / or / xor) through the multi-thread entry
+   point, EVERY thread count: the query reserves threads x per-thread arenas, which is what the executor asserts and carves with
+   Scratch::split_mut (the per-thread size is a multiple of the alignment); the regions start at aligned addresses and have exactly
+   the per-thread size (C12_split_windows), and each worker's level evaluation fits into such a region (C12_suffices_bdd_eval_level) *)
+Theorem C12_suffices_bdd_2w_to_1w_multi_thread : forall (fam n : Z) (res s key : infos) (bits threads state_size : Z),
+  is_fam fam -> pow2 n -> 8 <= n -> wf_infos res -> wf_infos s -> wf_infos key -> i_n res = n -> i_base2k res = i_base2k s -> i_rank res = i_rank s ->
+  i_rank res = i_rank_in key -> 0 <= bits -> 0 <= threads -> 0 <= state_size ->
+  run_takes (tree_bdd_2w_to_1w_multi_thread fam n bits threads state_size res s key)
+            (0, execute_bdd_circuit_2w_to_1w_multi_thread_tmp_bytes fam n bits threads state_size res s key) <> None.
+Proof. exact main_bdd_2w_to_1w_multi_thread. Qed.
+Print Assumptions C12_suffices_bdd_2w_to_1w_multi_thread.
+Theorem C12_suffices_bdd_eval_level : forall (fam n : Z) (res s : infos) (state_size nodes off : Z),
+  is_fam fam -> pow2 n -> 8 <= n -> wf_infos res -> wf_infos s -> i_n res = n -> i_base2k res = i_base2k s -> i_rank res = i_rank s -> 0 <= state_size ->
+  off mod 64 = 0 ->
+  run_tree (tree_bdd_eval_level fam n state_size nodes res s) (off, execute_bdd_circuit_tmp_bytes fam n res state_size s) <> None.
+Proof. exact main_bdd_eval_level. Qed.
+Print Assumptions C12_suffices_bdd_eval_level.
+Theorem C12_split_windows : forall (len : Z) (k : nat), 0 <= len -> len mod 64 = 0 -> forall off L ws r,
+  off mod 64 = 0 -> 0 <= L -> run_tree (rep k (Take len)) (off, L) = Some (ws, r) ->
+  Forall (fun w : window => fst w mod 64 = 0 /\ snd w = len) ws.
+Proof. exact main_split_windows. Qed.
+Print Assumptions C12_split_windows.
+
 (* ------------------------------------------------------------------ max_serves_all instantiated: the ONE buffer the crate's own
    test helpers allocate for several operations (sizes combined with `|`, which dominates the maximum, or with .max) serves
    each of them *)
